@@ -99,7 +99,7 @@ std::string mutateRequest(const std::string& base, Prng& r, int kind)
 	{
 		static const char* t[] = {"/../secret", "/..%2fsecret", "/%2e%2e/secret", "/%2e%2e%2fsecret", "/....//secret", "/.%2e/secret", "/%252e%252e/secret", "/a/../../secret", "/..../secret", "/. ./secret",
 		                          "/..;/secret", "/%2e./secret", "/.%2E/%2e./secret", "/..\\secret", "/..%5csecret", "/...%2f.../secret", "/%2e%2e%2e%2e/secret", "//sim/secret", "/%2fsim%2fsecret", "/..%00/secret",
-		                          "/.%00./secret", "/f0.txt/../../secret", "/?/../secret", "/#/../secret", "/..%c0%afsecret", "secret", "../secret", "%2e%2e/secret", "f0.txt"};
+		                          "/.%00./secret", "/f0.txt/../../secret", "/?/../secret", "/#/../secret", "/..%c0%afsecret", "secret", "../secret", "%2e%2e/secret", "f0.txt", "/a%00/../secret", "/%00../secret", "/f0.txt%00/../../secret"};
 		s.replace(0, eol, std::string("GET ") + t[r.below(sizeof t / sizeof t[0])] + " HTTP/1.1");
 		break;
 	}
